@@ -304,12 +304,12 @@ class DurationTypeIO(GraphSONTypeIO):
     cql_type = 'duration'
 
     _duration_regex = re.compile(r"""
-        ^P((?P<days>\d+)D)?
+        ^(?P<sign>-)?P((?P<days>\d+)D)?
         T((?P<hours>\d+)H)?
         ((?P<minutes>\d+)M)?
         ((?P<seconds>[0-9.]+)S)?$
     """, re.VERBOSE)
-    _duration_format = "P{days}DT{hours}H{minutes}M{seconds}S"
+    _duration_format = "{sign}P{days}DT{hours}H{minutes}M{seconds}S"
 
     _seconds_in_minute = 60
     _seconds_in_hour = 60 * _seconds_in_minute
@@ -317,14 +317,17 @@ class DurationTypeIO(GraphSONTypeIO):
 
     @classmethod
     def serialize(cls, value, writer=None):
-        total_seconds = int(value.total_seconds())
+        # exact integer arithmetic on the magnitude; a negative duration is written with a leading sign
+        sign = '-' if value < datetime.timedelta(0) else ''
+        magnitude = abs(value)
+        total_seconds = magnitude.days * cls._seconds_in_day + magnitude.seconds
         days, total_seconds = divmod(total_seconds, cls._seconds_in_day)
         hours, total_seconds = divmod(total_seconds, cls._seconds_in_hour)
         minutes, total_seconds = divmod(total_seconds, cls._seconds_in_minute)
-        total_seconds += value.microseconds / 1e6
+        seconds = '%d.%s' % (total_seconds, ('%06d' % magnitude.microseconds).rstrip('0') or '0')
 
         return cls._duration_format.format(
-            days=int(days), hours=int(hours), minutes=int(minutes), seconds=total_seconds
+            sign=sign, days=int(days), hours=int(hours), minutes=int(minutes), seconds=seconds
         )
 
     @classmethod
@@ -333,10 +336,11 @@ class DurationTypeIO(GraphSONTypeIO):
         if duration is None:
             raise ValueError('Invalid duration: {0}'.format(value))
 
+        sign = -1 if duration.group('sign') else 1
         duration = {k: float(v) if v is not None else 0
-                    for k, v in duration.groupdict().items()}
-        return datetime.timedelta(days=duration['days'], hours=duration['hours'],
-                                  minutes=duration['minutes'], seconds=duration['seconds'])
+                    for k, v in duration.groupdict().items() if k != 'sign'}
+        return sign * datetime.timedelta(days=duration['days'], hours=duration['hours'],
+                                         minutes=duration['minutes'], seconds=duration['seconds'])
 
 
 class DseDurationTypeIO(GraphSONTypeIO):
